@@ -88,6 +88,10 @@ type BuildOpts struct {
 	Path       string // "" = in memory
 	SegVersion int
 	NoMerge    bool
+	// OfflinePrefix > 1: the first that many segments of the corpus are written by the OfflineWriter (several small
+	// batches merged into ONE segment at its Close: merged segments use encodings that fresh ones never do, e.g. the
+	// single-document posting), the rest by a regular writer opened on the same directory. Needs Path.
+	OfflinePrefix int
 }
 
 // Config returns a configuration whose layout is exactly what the batches produce.
@@ -114,11 +118,29 @@ func Config(o BuildOpts) bluge.Config {
 // Build indexes the corpus: one batch per segment, then one delete-only batch.
 func Build(c Corpus, o BuildOpts) (*bluge.Writer, *bluge.Reader, error) {
 	o.NoMerge = true
+	skip := 0
+	if o.OfflinePrefix > 1 && o.Path != "" && len(c.Segs) >= o.OfflinePrefix {
+		ow, err := bluge.OpenOfflineWriter(Config(o), 1, 10)
+		if err != nil {
+			return nil, nil, err
+		}
+		for _, s := range c.Segs[:o.OfflinePrefix] {
+			for _, d := range s.Docs {
+				if err = ow.Insert(RealDoc(d)); err != nil {
+					return nil, nil, err
+				}
+			}
+		}
+		if err = ow.Close(); err != nil {
+			return nil, nil, err
+		}
+		skip = o.OfflinePrefix
+	}
 	w, err := bluge.OpenWriter(Config(o))
 	if err != nil {
 		return nil, nil, err
 	}
-	for _, s := range c.Segs {
+	for _, s := range c.Segs[skip:] {
 		b := index.NewBatch()
 		for _, d := range s.Docs {
 			b.Insert(RealDoc(d))
